@@ -25,7 +25,7 @@ def witness_search(tier, seed):
     import itertools
     from simfile.ssc import SSCSimfile, SSCChart
     import simfile
-    vals = [None, "", "a", "x:y", "a;b", "1", ":240", "::", ":TIME=1:LEN=2", "cr\rlf\r\nend"]
+    vals = [None, "", "a", "x:y", "a;b", "1", ":240", "::", ":TIME=1:LEN=2", "60\\:240", "cr\rlf\r\nend"]
     for notes, k, v in itertools.product(["", "1", "0000\n0000"], ["CREDIT", "ATTACKS", "DISPLAYBPM", "FOO", "NOTESKIN"], vals):
         for notes_key, pos in itertools.product(("NOTES", "NOTES2"), ("last", "first")):
             ch = SSCChart()
@@ -47,6 +47,14 @@ def witness_search(tier, seed):
                                 ("load(lines)", simfile.load(iter(text.splitlines(keepends=True))))):
                 if type(auto) is not SSCSimfile or list(auto.items()) != list(sf.items()) or [list(c.items()) for c in auto.charts] != [list(c.items()) for c in SSCSimfile(string=text).charts]:
                     return dict(input=dict(chart=items, entry=entry), detail=f"simfile.{entry} of the serialized text is not the simfile that SSCSimfile(string=) reads")
+            # "ATTACKS/DISPLAYBPM on simfile and chart level are written as unescaped colon-delimited components": the written
+            # parameter has one component per colon-separated piece of the value (read back with the tokenizer itself)
+            if k in ("ATTACKS", "DISPLAYBPM") and v is not None:
+                from msdparser import parse_msd
+                comps = [p_.components for p_ in parse_msd(string=text) if p_.key == k]
+                want = (k,) + tuple(v.split(":"))
+                if any(tuple(c) != want for c in comps) or len(comps) != 2:
+                    return dict(input=dict(property=k, value=v), detail=f"{k} is written with the components {comps!r}; one component per colon-separated piece is {want!r}")
             back = SSCSimfile(string=text)
             exp = [(a, b) for a, b in items if a != notes_key] + [(notes_key, notes)]
             got = list(back.charts[0].items()) if back.charts else None
